@@ -135,6 +135,34 @@ def refusals_harness(ctx):
         ctx.prove("retarget/refuses/retargeted-twice", z3.BoolVal(True))
 
 
+def history_harness(ctx):
+    """RewritingContext.retarget_symbol_uses (loop-free; symbols are opaque keys): after any history of requests the recorded map is
+    exactly {old: new as requested} for the accepted ones, in request order; a request is refused iff its old symbol was already
+    accepted (the other refusals are in refusals_harness).  E: all histories of up to 3 requests over 4 symbols, chains in both
+    orders, swaps and self-retargets included -- the body only reads `old in map` and writes map[old] = new."""
+    ir, m = create_test_module(gtirb.Module.FileFormat.ELF, gtirb.Module.ISA.X64)
+    _, bi = add_text_section(m, address=0x1000)
+    syms = [add_symbol(m, n, add_code_block(bi, b"\x90")) for n in "abcd"]
+    rc = RW.RewritingContext(m, [])
+    n = ctx.choose(3, "requests") + 1
+    want = {}
+    for i in range(n):
+        old = syms[ctx.choose(4, "old%d" % i)]
+        new = syms[ctx.choose(4, "new%d" % i)]
+        try:
+            rc.retarget_symbol_uses(old, new)
+            accepted = True
+        except ValueError:
+            accepted = False
+        ctx.prove("retarget/request-refused-iff-old-symbol-already-retargeted", z3.BoolVal(accepted == (old not in want)))
+        if accepted:
+            want[old] = new
+    got = rc._symbol_retargets
+    ctx.prove("retarget/recorded-map-is-exactly-the-requests-as-given", z3.BoolVal(list(got.items()) == list(want.items())
+                                                                                 and all(got[k] is v for k, v in want.items())),
+              note="a chain A->B, B->C stays a chain whatever the order of the two requests (uses of A go to B, uses of B go to C)")
+
+
 # ------------------------------------------------------------------------------------------------ bounded
 def build(a_internal, b_internal, b_is_data, with_functions):
     ir, m = create_test_module(gtirb.Module.FileFormat.ELF, gtirb.Module.ISA.X64)
@@ -196,10 +224,10 @@ def bounded(tier, seed):
         logging.getLogger("gtirb_rewriting").setLevel(logging.CRITICAL)
         br = BResult()
         br.bound = ("x86-64 ELF PIE module: A used by a call, a jump, a lea, a data word (+16), .cfi_personality and symbolForwarding; bystander K; "
-                    "A internal/external x B internal code / internal data / external x with/without function info; through RewritingContext.apply()")
+                    "A internal/external x B internal code / internal data / external x with/without function info; through RewritingContext.apply(); plus the chain K->A, A->B in both registration orders")
         br.clauses = ["C18/no-use-of-A-remains-and-each-now-refers-to-B-with-the-same-addend", "C18/attributes-converted-per-the-ABI-rule",
                       "C18/every-other-entry-untouched", "C18/branch-and-call-edges-lead-to-B", "C18/return-edges-follow-the-calls",
-                      "C18/retargeting-control-flow-into-data-is-refused"]
+                      "C18/retargeting-control-flow-into-data-is-refused", "C18/chains-are-simultaneous-substitutions"]
         distinct = set()
         for a_int, (b_int, b_data), funcs in itertools.product((True, False), ((True, False), (True, True), (False, False)), (False, True)):
             ir, m, H, fl = build(a_int, b_int, b_data, funcs)
@@ -263,6 +291,46 @@ def bounded(tier, seed):
                                             sorted(getattr(t, "address", "proxy") or "proxy" for t in rb), sorted(getattr(t, "address", "proxy") or "proxy" for t in ra))})
             if len(br.samples) < 2:
                 br.samples.append(desc)
+        # ---- several retargets at once: the chain K->A, A->B (uses of K go to A, uses of A go to B), both registration orders
+        for a_int, b_int, funcs, order in itertools.product((True, False), (True, False), (False, True), ((0, 1), (1, 0))):
+            ir, m, H, fl = build(a_int, b_int, False, funcs)
+            br.cases += 1
+            distinct.add(("chain", a_int, b_int, funcs, order))
+            reqs = [(H["K"], H["A"]), (H["A"], H["B"])]
+            desc = {"A": "internal" if a_int else "external", "B": "code" if b_int else "external", "functions": funcs,
+                    "requests in order": ["K->A, A->B", "A->B, K->A"][order[0]]}
+            before = {(i.section.name, i.address + k): (e.symbol, e.offset) for i in m.byte_intervals for k, e in i.symbolic_expressions.items()}
+            rc = RW.RewritingContext(m, fl)
+            for j in order:
+                rc.retarget_symbol_uses(*reqs[j])
+            try:
+                rc.apply()
+            except Exception as e:
+                br.failures.append({"clause": "C18/chains-are-simultaneous-substitutions", "witness": desc, "detail": "%s: %s" % (type(e).__name__, str(e)[:100])})
+                continue
+            sub = {id(H["K"]): H["A"], id(H["A"]): H["B"]}
+            after = {(i.section.name, i.address + k): (e.symbol, e.offset) for i in m.byte_intervals for k, e in i.symbolic_expressions.items()}
+            bad = []
+            for pos, (sym, addend) in before.items():
+                want_sym = sub.get(id(sym), sym)
+                got = after.get(pos)
+                if got is None or got[0] is not want_sym or got[1] != addend:
+                    bad.append("%s at %s+%#x: was %s%+d, expected %s%+d, got %s" % ("expression", pos[0], pos[1], sym.name, addend, want_sym.name, addend,
+                                                                                 None if got is None else "%s%+d" % (got[0].name, got[1])))
+            if set(after) != set(before):
+                bad.append("expressions appeared or disappeared")
+            ds = list(_auxdata.cfi_directives.get(m).values())[0]
+            fw = _auxdata.symbol_forwarding.get(m)
+            if ds[1][2] is not H["B"] or ds[2][2] is not H["A"]:
+                bad.append("CFI personality/LSDA symbols: %s / %s, expected B / A" % (getattr(ds[1][2], "name", ds[1][2]), getattr(ds[2][2], "name", ds[2][2])))
+            if fw.get(H["X"]) is not H["B"] or len(fw) != 2:
+                bad.append("symbolForwarding X -> %s, expected B" % getattr(fw.get(H["X"]), "name", None))
+            for src, ty, tgt_sym in ((H["main"], gtirb.EdgeType.Call, H["B"]), (H["retsite"], gtirb.EdgeType.Branch, H["B"]), (H["site2"], gtirb.EdgeType.Call, H["A"])):
+                tg = [e.target for e in src.outgoing_edges if e.label.type == ty]
+                if tg != [tgt_sym.referent]:
+                    bad.append("%s edge of the block at %#x leads to %s, expected the referent of %s" % (ty.name, src.address, tg, tgt_sym.name))
+            for b in bad[:3]:
+                br.failures.append({"clause": "C18/chains-are-simultaneous-substitutions", "witness": desc, "detail": b})
         br.nontrivial = len(distinct)
         return br
     return run
@@ -270,6 +338,7 @@ def bounded(tier, seed):
 
 def jobs(tier="quick", seed=0):
     yield Job("C18/refusals", refusals_harness, kind="D", func="gtirb_rewriting.rewriting:RewritingContext.retarget_symbol_uses")
+    yield Job("C18/request-history", history_harness, kind="E", func="gtirb_rewriting.rewriting:RewritingContext.retarget_symbol_uses")
     for name, abi, m in abi_modules():
         yield Job("C18/rules/%s" % name, rules_table_harness(name, abi, m), kind="E", func="gtirb_rewriting.abi:%s._sym_expr_rules" % type(abi).__name__)
         yield Job("C18/sym_expr/%s" % name, sym_expr_harness(name, abi, m), setup=lambda: shims.installed([RT]), kind="D",
